@@ -157,6 +157,8 @@ class SunVoxReader(Reader):
             in_links = mod.in_links
             in_link_slots = mod.in_link_slots
             for in_link_idx, in_link in enumerate(in_links):
+                if in_link == -1:  # freed link
+                    continue
                 out_link_idx = in_link_slots[in_link_idx]
                 src_mod = self.object.modules[in_link]
                 if not src_mod:
@@ -167,9 +169,13 @@ class SunVoxReader(Reader):
                     out_links.append(-1)
                 while out_link_idx >= len(out_link_slots):
                     out_link_slots.append(-1)
-                if out_link_idx != -1:
-                    out_links[out_link_idx] = mod.index
-                    out_link_slots[out_link_idx] = in_link_idx
+                if out_link_idx == -1 or out_links[out_link_idx] not in (-1, mod.index):
+                    # No slot, or one already claimed by another link: take a new one.
+                    out_link_idx = in_link_slots[in_link_idx] = len(out_links)
+                    out_links.append(-1)
+                    out_link_slots.append(-1)
+                out_links[out_link_idx] = mod.index
+                out_link_slots[out_link_idx] = in_link_idx
         # Clear high byte of module in patterns if version was < 1.9.5.0
         if self.object.loaded_sunvox_version < (1, 9, 5, 0):
             for pat in self.object.patterns:
